@@ -28,6 +28,9 @@ var Registry = map[string]Check{}
 // Level is the evidence level per property.
 var Level = map[string]string{}
 
+// Workers maps property ids to the request handler run inside crash-isolated worker subprocesses.
+var Workers = map[string]func(req []byte) []byte{}
+
 func register(id string, c Check) {
 	Registry[id] = c
 	Level[id] = "model_checking"
